@@ -430,6 +430,7 @@ pub fn parts() -> Vec<Box<dyn PartDyn>> {
             shrink_budget: 4000,
             confirm_runs: 1,
             fuzz: Some(fuzz_a),
+            watchdog_s: 0,
         }),
         Box::new(Part::<CaseB> {
             name: "arbitrary",
@@ -442,6 +443,7 @@ pub fn parts() -> Vec<Box<dyn PartDyn>> {
             shrink_budget: 4000,
             confirm_runs: 1,
             fuzz: Some(fuzz_b),
+            watchdog_s: 0,
         }),
     ]
 }
